@@ -74,12 +74,13 @@ class ConstantViolationBuilder:
 
 
 def _get_other_locations(group: ConstantGroup, current: ConstantLocation) -> list[ConstantLocation]:
-    """Get locations excluding current (module-level helper)."""
-    return [
+    """Get locations excluding current, in path/line order so the message does not depend on lint order."""
+    others = [
         loc
         for loc in group.locations
         if loc.file_path != current.file_path or loc.line_number != current.line_number
     ]
+    return sorted(others, key=lambda loc: (str(loc.file_path), loc.line_number, loc.name))
 
 
 def _format_locations_text(others: list[ConstantLocation]) -> str:
